@@ -186,22 +186,43 @@ def parse_const(o):
 
 # ------------------------------------------------------------------ state
 class St:
-    __slots__ = ('mem', 'facts', 'known', 'effects', 'wver', 'stack', 'iters', 'nfork', 'order')
+    __slots__ = ('mem', 'facts', 'known', 'effects', 'wver', 'stack', 'iters', 'nfork', 'order', 'ors')
     def __init__(self):
         self.mem = {}; self.facts = []; self.known = {}; self.effects = []
-        self.wver = (); self.stack = (); self.iters = 0; self.nfork = 0; self.order = ()
+        self.wver = (); self.stack = (); self.iters = 0; self.nfork = 0; self.order = (); self.ors = ()
     def copy(self):
         s = St.__new__(St)
         s.mem = dict(self.mem); s.facts = list(self.facts); s.known = dict(self.known)
         s.effects = list(self.effects); s.wver = self.wver; s.stack = self.stack
-        s.iters = self.iters; s.nfork = self.nfork; s.order = self.order
+        s.iters = self.iters; s.nfork = self.nfork; s.order = self.order; s.ors = self.ors
         return s
+
+    def contradicted(self, g):
+        k = g[0]
+        if k in ('is', 'isnot'):
+            kn = self.known.get(('d', g[1]))
+            if kn is None: return False
+            if k == 'is': return (kn[0] == 'is' and kn[1] != g[2]) or (kn[0] == 'isnot' and g[2] in kn[1])
+            return kn[0] == 'is' and kn[1] in g[2]
+        if k in ('val', 'nval'):
+            kn = self.known.get(('v', g[1]))
+            if kn is None: return False
+            if k == 'val': return (kn[0] == 'val' and kn[1] != g[2]) or (kn[0] == 'nval' and g[2] in kn[1])
+            return kn[0] == 'val' and kn[1] in g[2]
+        return False
+
+    def or_feasible(self):
+        """False when some disjunctive fact (merged outcomes of a boolean helper) has every alternative contradicted by what the path knows"""
+        for alts in self.ors:
+            if all(any(self.contradicted(g) for g in alt) for alt in alts): return False
+        return True
     # facts: ('is', t, variant) / ('val', t, v) / ('nval', t, vals) / ('or', alternatives)
     def add_fact(self, f, site):
         self.facts.append((f, site, self.stack))
         k = f[0]
         of = order_fact(f)
         if of is not None: self.order = self.order + (of,)
+        if k == 'or': self.ors = self.ors + (f[1],)
         if k == 'is': self.known[('d', f[1])] = ('is', f[2])
         elif k == 'isnot':
             old = self.known.get(('d', f[1]))
@@ -524,7 +545,9 @@ class Interp:
         for i, (bb, fact) in enumerate(outs):
             s = st if i == n - 1 else st.copy()
             s.add_fact(fact, site); s.nfork += 1
+            if s.ors and not s.or_feasible(): continue
             res.append((s, bb))
+        if not res: raise PathEnd()
         return res
 
     def fork_variants(self, st, x, names, site):
@@ -540,7 +563,9 @@ class Interp:
         for i, nme in enumerate(cand):
             s = st if i == len(cand) - 1 else st.copy()
             s.add_fact(('is', x0, nme), site); s.nfork += 1
+            if s.ors and not s.or_feasible(): continue
             res.append((s, nme))
+        if not res: raise PathEnd()
         return res
 
     # ---- running a body
@@ -645,8 +670,15 @@ class Interp:
                 return r if isinstance(r, list) else [(st, r)]
         local = res['local'] if res else fn['local']
         body = self.p.bodies.get(name) if local else None
-        if body is not None and body['kind'] in ('Fn', 'AssocFn'):
+        if body is not None and body['kind'] in ('Fn', 'AssocFn') and body.get('blocks'):
             return self.inline(st, body, args, targs, site)
+        # a trait method called on a type parameter inside a generic body (e.g. the provided method of a trait calling a required
+        # one): resolved now that the caller's substitution makes the receiver type concrete
+        if res is None and fn.get('trait') and info['self_ty']:
+            impl = self.p.impls.get('<%s as %s>' % (info['self_ty'].lstrip('&'), fn['trait']))
+            b2 = impl.get(fn.get('name') or fn['def'].rsplit('::', 1)[-1]) if impl else None
+            if b2 is not None and b2.get('blocks'):
+                return self.inline(st, b2, args, targs[1:] if targs and targs[0] == info['self_ty'] else targs, site)
         return [(st, self.opaque_call(st, info, args))]
 
     def inline(self, st, body, args, targs, site):
